@@ -39,7 +39,8 @@ def exhaustive(tier):
 
 def required(tier):
     return ["all_40_headers_routed_alone", "all_40_together", "empty_body", "bom_by_path", "crlf", "crlf_by_path", "unknown_between_known",
-            "required_first", "required_last", "missing:Song", "missing:SyncTrack", "missing:Events", "instrument_before_Song", "align:straddle", "align:line_end", "rendering_parsed_with_selection_of_all_tracks"]
+            "required_first", "required_last", "missing:Song", "missing:SyncTrack", "missing:Events", "instrument_before_Song", "align:straddle", "align:line_end", "rendering_parsed_with_selection_of_all_tracks",
+            "lf_and_crlf_mixed_in_one_file", "no_line_terminator_after_the_last_brace"]
 
 
 def shards(tier, seed):
@@ -134,9 +135,21 @@ def parse_variant(text, via_path, bom, want=None):
         return harness.Outcome(None, e, env.LOG.drain())
 
 
-def judge_rendering(rec, sections, truth, newline, via_path, bom, baseline, light=False):
-    text = gen.render_sections(sections, newline)
-    case = {"sections": [[n, list(b)] for n, b in sections], "truth": truth, "newline": newline, "via_path": via_path, "bom": bom}
+def render(sections, newline, final=True):
+    """newline 'mixed' = every line ends in LF or CRLF, alternating irregularly; final=False = no line terminator after the last brace"""
+    if newline != "mixed":
+        text = gen.render_sections(sections, newline)
+    else:
+        lines = gen.render_sections(sections, "\n").split("\n")[:-1]
+        text = "".join(ln + ("\r\n" if (i * 7 + len(ln)) % 3 == 0 else "\n") for i, ln in enumerate(lines))
+    if not final:
+        text = text[:-2] if text.endswith("\r\n") else text[:-1]
+    return text
+
+
+def judge_rendering(rec, sections, truth, newline, via_path, bom, baseline, light=False, final=True):
+    text = render(sections, newline, final)
+    case = {"sections": [[n, list(b)] for n, b in sections], "truth": truth, "newline": newline, "via_path": via_path, "bom": bom, "final": final}
     probes.drain()
     want = None
     if not light and len(text) % 4 == 1:
@@ -218,13 +231,18 @@ def run_spec(rec, rng, case, n_render):
         if r == 0:
             secs.sort(key=lambda s: s[0] in ("Song", "SyncTrack", "Events"))  # instrument sections first
         secs = with_unknown(rng, secs, rng.choice([0, 1, 2, 4]))
-        newline = rng.choice(["\n", "\r\n"])
+        newline = rng.choice(["\n", "\r\n", "\r\n", "mixed"])
+        final = rng.random() < 0.7
         via_path = r % 2 == 1
         bom = via_path and rng.random() < 0.6
         position_classes(rec, secs)
-        judge_rendering(rec, secs, truth, newline, via_path, bom, baseline)
+        judge_rendering(rec, secs, truth, newline, via_path, bom, baseline, final=final)
         if newline == "\r\n":
             rec.cls("crlf_by_path" if via_path else "crlf")
+        if newline == "mixed":
+            rec.cls("lf_and_crlf_mixed_in_one_file")
+        if not final:
+            rec.cls("no_line_terminator_after_the_last_brace")
         if bom:
             rec.cls("bom_by_path")
         if rec.full:
@@ -364,7 +382,7 @@ def replay(case, rec):
             return
         base_secs = [s for s in secs if s[0] in known_names()]
         baseline = judge_rendering(rec, base_secs, case["truth"], "\n", False, False, None)
-        judge_rendering(rec, secs, case["truth"], case["newline"], case["via_path"], case["bom"], baseline)
+        judge_rendering(rec, secs, case["truth"], case["newline"], case["via_path"], case["bom"], baseline, final=case.get("final", True))
     finally:
         if TMP:
             shutil.rmtree(TMP, ignore_errors=True)
